@@ -32,6 +32,32 @@ pub enum StoreFault {
     Delete { at: usize, len: usize },
     /// a duplicated write: `len` bytes from `at` appear twice (never-panics half only)
     Duplicate { at: usize, len: usize },
+    /// byte `at` of the frame that occupies `start..start+frame_len` (header of `header_len` bytes incl. its
+    /// CRC-8) is set to `value`, and then the checksums are RECOMPUTED over the altered bytes - what a
+    /// tool that "repairs" checksums, or a crafted file, looks like (never-panics half only)
+    ChecksumFix { at: usize, value: u8, start: usize, header_len: usize, frame_len: usize },
+}
+
+fn crc8(bytes: &[u8]) -> u8 {
+    let mut c = 0u8;
+    for b in bytes {
+        c ^= *b;
+        for _ in 0..8 {
+            c = if c & 0x80 != 0 { (c << 1) ^ 0x07 } else { c << 1 };
+        }
+    }
+    c
+}
+
+fn crc16(bytes: &[u8]) -> u16 {
+    let mut c = 0u16;
+    for b in bytes {
+        c ^= u16::from(*b) << 8;
+        for _ in 0..8 {
+            c = if c & 0x8000 != 0 { (c << 1) ^ 0x8005 } else { c << 1 };
+        }
+    }
+    c
 }
 
 #[derive(Serialize, Deserialize, Clone, Debug)]
@@ -89,6 +115,17 @@ pub fn apply(bytes: &[u8], f: &StoreFault, other: Option<&[u8]>) -> Vec<u8> {
             let tail = b.split_off(end);
             b.extend_from_slice(&dup);
             b.extend_from_slice(&tail);
+        }
+        StoreFault::ChecksumFix { at, value, start, header_len, frame_len } => {
+            if *start + *frame_len <= b.len() && *at < b.len() && *header_len >= 2 && *frame_len >= *header_len + 2 {
+                b[*at] = *value;
+                if *at < *start + *header_len - 1 {
+                    b[*start + *header_len - 1] = crc8(&b[*start..*start + *header_len - 1]);
+                }
+                let c = crc16(&b[*start..*start + *frame_len - 2]);
+                b[*start + *frame_len - 2] = (c >> 8) as u8;
+                b[*start + *frame_len - 1] = (c & 0xFF) as u8;
+            }
         }
     }
     b
@@ -253,6 +290,37 @@ fn faults_for(item: &CorpusItem, idx: usize, tier_thorough: bool) -> Vec<StoreFa
     for len in 0..item.bytes.len() {
         v.push(StoreFault::Truncate { len });
     }
+    // header bytes (every value) and the first body bytes of every frame, with the checksums recomputed
+    let mut start = corpus::frame_region_start(&item.bytes);
+    for n in 0..item.stream.frame_count() {
+        use flacenc::component::BitRepr;
+        let f = item.stream.frame(n).unwrap();
+        let frame_len = f.count_bits() / 8;
+        let header_len = f.header().count_bits() / 8;
+        if start + frame_len > item.bytes.len() || header_len < 2 || frame_len < header_len + 2 {
+            break;
+        }
+        // the harness's own CRCs must reproduce the clean frame, otherwise the fault model is wrong
+        if crc8(&item.bytes[start..start + header_len - 1]) != item.bytes[start + header_len - 1]
+            || crc16(&item.bytes[start..start + frame_len - 2]) != u16::from_be_bytes([item.bytes[start + frame_len - 2], item.bytes[start + frame_len - 1]])
+        {
+            break;
+        }
+        for off in (0..header_len - 1).chain(header_len..(header_len + 3).min(frame_len - 2)) {
+            for value in 0..=255u8 {
+                if value != item.bytes[start + off] {
+                    v.push(StoreFault::ChecksumFix {
+                        at: start + off,
+                        value,
+                        start,
+                        header_len,
+                        frame_len,
+                    });
+                }
+            }
+        }
+        start += frame_len;
+    }
     // lost, zeroed and duplicated byte ranges at every byte position (torn / lost / repeated writes)
     for at in 0..item.bytes.len() {
         for len in [1usize, 2, 4, 16] {
@@ -284,7 +352,7 @@ fn faults_for(item: &CorpusItem, idx: usize, tier_thorough: bool) -> Vec<StoreFa
 
 pub fn run(ctx: &crate::RunCtx) -> (Summary, Vec<Violation>) {
     let mut sum = Summary::new(
-        "corpus item = small emitted stream; faults on the stored bytes before parser::stream: EVERY single-bit flip, EVERY truncation length, zeroed / deleted / duplicated ranges of 1, 2, 4, 16 bytes at EVERY byte position (never-panics half), \
+        "corpus item = small emitted stream; faults on the stored bytes before parser::stream: EVERY single-bit flip, EVERY truncation length, zeroed / deleted / duplicated ranges of 1, 2, 4, 16 bytes at EVERY byte position (never-panics half), every value of every frame-header byte and of the first body bytes with the CRC-8 / CRC-16 recomputed afterwards (never-panics half), \
          bursts (quick: every multi-bit mask at every byte position for a third of the corpus; thorough: every start bit x every mask of width 2..8 with first and last bit set), \
          plus seeded random byte strings and splices. Streams larger than 4 KiB (a 96 KB frame, 32 KB frames at the maximum block size) get a sampled version plus zeroed ranges of 4-32 KiB (lost sectors). A case = (stream, fault); all enumerated cases are distinct; non-trivial = the altered bytes got past the \
          marker and STREAMINFO into the frame parser (fault at or after the first frame byte, or a random/spliced file that keeps a valid header).",
@@ -333,6 +401,7 @@ pub fn run(ctx: &crate::RunCtx) -> (Summary, Vec<Violation>) {
                 StoreFault::ZeroRange { .. } => "zero_range",
                 StoreFault::Delete { .. } => "delete_range",
                 StoreFault::Duplicate { .. } => "duplicate_range",
+                StoreFault::ChecksumFix { .. } => "altered_byte_with_recomputed_checksums",
             };
             *sum.fault_kinds.entry(kind.into()).or_default() += 1;
             if span(&fault).map_or(false, |(f, _)| f >= base.frame_start_bit) {
